@@ -6,6 +6,7 @@ package simfs
 
 import (
 	"errors"
+	"fmt"
 	"io"
 	"io/fs"
 	"math/rand/v2"
@@ -16,6 +17,7 @@ var (
 	ErrInjected = errors.New("simfs: injected read error")
 	ErrEMFILE   = errors.New("simfs: too many open files")
 	ErrIsDir    = errors.New("simfs: is a directory")
+	ErrBackend  = errors.New("simfs: storage backend unavailable")
 )
 
 type Fault struct {
@@ -23,6 +25,7 @@ type Fault struct {
 	Kind string `json:"kind"`          // readerr | notexist | perm | emfile | dir
 	At   int    `json:"at,omitempty"`  // readerr: octets delivered before the error
 	Nth  int    `json:"nth,omitempty"` // apply to the n-th open of the file (0 = every open)
+	Once bool   `json:"once,omitempty"` // readerr: the read fails once (a transient error), the next one carries on with the rest of the file
 }
 
 type FS struct {
@@ -55,12 +58,21 @@ func (f *FS) Open(name string) (fs.File, error) {
 		f.OpenedLog = append(f.OpenedLog, name)
 	}
 	nth := f.OpenCount[name]
-	readErrAt, eof := -1, false
+	readErrAt, eof, once := -1, false, false
 	for _, ft := range f.Faults {
 		if ft.File != name || (ft.Nth != 0 && ft.Nth != nth) {
 			continue
 		}
 		switch ft.Kind {
+		case "plainerr":
+			// an fs.FS is free to return any error, not only *fs.PathError
+			f.Fired["open_plain_error"]++
+			f.OpenFails++
+			return nil, ErrBackend
+		case "wrappederr":
+			f.Fired["open_wrapped_error"]++
+			f.OpenFails++
+			return nil, fmt.Errorf("simfs: open %s: %w", name, &fs.PathError{Op: "open", Path: name, Err: fs.ErrPermission})
 		case "notexist":
 			f.Fired["open_notexist"]++
 			f.OpenFails++
@@ -81,7 +93,7 @@ func (f *FS) Open(name string) (fs.File, error) {
 			}
 			return &file{fs: f, name: name, dir: true}, nil
 		case "readerr":
-			readErrAt = ft.At
+			readErrAt, once = ft.At, ft.Once
 		case "eofat":
 			readErrAt, eof = ft.At, true
 		}
@@ -96,7 +108,7 @@ func (f *FS) Open(name string) (fs.File, error) {
 	if f.Nest > f.MaxNest {
 		f.MaxNest = f.Nest
 	}
-	return &file{fs: f, name: name, data: data, errAt: readErrAt, eofOnly: eof}, nil
+	return &file{fs: f, name: name, data: data, errAt: readErrAt, eofOnly: eof, once: once}, nil
 }
 
 type file struct {
@@ -109,6 +121,7 @@ type file struct {
 	closed  bool
 	failed  bool
 	eofOnly bool // end the file at errAt without an error (reference runs)
+	once    bool // the read error is transient: returned once, then the file carries on
 }
 
 func (x *file) Stat() (fs.FileInfo, error) { return info{x.name, int64(len(x.data)), x.dir}, nil }
@@ -128,11 +141,11 @@ func (x *file) Read(p []byte) (int, error) {
 		return 0, nil
 	}
 	lim := len(x.data)
-	if x.errAt >= 0 && x.errAt < lim {
+	if x.errAt >= 0 && x.errAt < lim && !(x.once && x.failed) {
 		lim = x.errAt
 	}
 	if x.off >= lim {
-		if x.errAt >= 0 && x.errAt <= len(x.data) && !x.eofOnly {
+		if x.errAt >= 0 && x.errAt <= len(x.data) && !x.eofOnly && !(x.once && x.failed) {
 			x.failed = true
 			f.Fired["read_error"]++
 			return 0, ErrInjected
@@ -187,16 +200,16 @@ func (i info) Sys() any           { return nil }
 type Reader struct{ f *file }
 
 func (f *FS) Reader(name string, data []byte) *Reader {
-	errAt, eof := -1, false
+	errAt, eof, once := -1, false, false
 	for _, ft := range f.Faults {
 		if ft.File == name && ft.Kind == "readerr" {
-			errAt = ft.At
+			errAt, once = ft.At, ft.Once
 		}
 		if ft.File == name && ft.Kind == "eofat" {
 			errAt, eof = ft.At, true
 		}
 	}
-	return &Reader{&file{fs: f, name: name, data: data, errAt: errAt, eofOnly: eof}}
+	return &Reader{&file{fs: f, name: name, data: data, errAt: errAt, eofOnly: eof, once: once}}
 }
 
 func (r *Reader) Read(p []byte) (int, error) { return r.f.Read(p) }
